@@ -118,6 +118,18 @@ def bitmapAllocate (v size : Nat) : Prog Unit :=
 def freeBitmap (v : Nat) : Prog Unit :=
   modVolMem v fun vm => { vm with hasBitmap := false, bitmapSize := 0, bitmapBlocks := [], bitmapTable := [], bitmapChg := [] }
 
+/-- the page loop of `adfUpdateBitmap`: write every changed page in table order, stop at the first failure -/
+def updateBitmapPages (v : Nat) : (is : List Nat) → Prog RC
+  | [] => return rcOK
+  | i :: is => do
+    let vm ← getVolMem v
+    if vm.bitmapChg.getD i false then
+      let rc ← writeBitmapBlock v (vm.bitmapBlocks.getD i 0) (vm.bitmapTable.getD i zeroBlk)
+      if rc ≠ rcOK then return rc
+      setVolMem v { vm with bitmapChg := vm.bitmapChg.set i false }
+      updateBitmapPages v is
+    else updateBitmapPages v is
+
 /-- `adfUpdateBitmap`: root(bmFlag=INVALID) → changed pages → root(bmFlag=VALID, stamped) -/
 def updateBitmap (v : Nat) : Prog RC := do
   let vc ← getVolCfg v
@@ -127,12 +139,8 @@ def updateBitmap (v : Nat) : Prog RC := do
   let (rc, root) ← writeRootBlock v vc.rootBlock root
   if rc ≠ rcOK then return rc
   let vm ← getVolMem v
-  for i in List.range vm.bitmapSize do
-    let vm ← getVolMem v
-    if vm.bitmapChg.getD i false then
-      let rc ← writeBitmapBlock v (vm.bitmapBlocks.getD i 0) (vm.bitmapTable.getD i zeroBlk)
-      if rc ≠ rcOK then return rc
-      setVolMem v { vm with bitmapChg := vm.bitmapChg.set i false }
+  let rc ← updateBitmapPages v (List.range vm.bitmapSize)
+  if rc ≠ rcOK then return rc
   let root := root.setW F_bmFlag BM_VALID
   let t ← now
   let (d, m, k) := time2Amiga t.year t.mon t.day t.hour t.min t.sec
